@@ -305,7 +305,7 @@ def obligations(tier, seed):
                           bounds="value kinds symbolic, strings |s| <= 1 over {x <}, list length 0..2", functions=["simpletal.simpleTALES.Context.evaluate/evaluatePath/evaluateExists/evaluateNoCall/evaluateNot/evaluateString/traversePath"]))
     for nm in sorted(METAL):
         src = METAL[nm].source()
-        if tier == "quick" and nm not in ("metal01", "metal02", "metal13", "metal21", "metal04"):
+        if tier == "quick" and nm not in ("metal01", "metal02", "metal13", "metal21", "metal04", "metal35", "metal0r", "metalnest"):
             continue
         uses_repeat = "tal:repeat" in src
         nvars = sum(1 for v in ("cv", "tv", "av", "dv") if v in src)
@@ -318,7 +318,7 @@ def obligations(tier, seed):
                               + (["len(s2) == 0", "nitems <= 1"] if tier == "quick" else []) + ([] if part is None else ["cvk == %d" % part]),
                           timeout=400 if tier == "quick" else 1800,
                           desc="METAL template %s: macro use with slot filling under a symbolic context == reference METAL/TAL evaluator; interpreter state balanced; caller context restored" % src,
-                          bounds="macro body %s x fill shape %s of the METAL grammar (3 x 5); context value kinds 0..%d symbolic; strings |s| <= 1 over {< & \" a}; repeat of 0..%d items" % (nm[5], nm[6], K, 1 if tier == "quick" else 2),
+                          bounds="METAL template %s (3 macro bodies x 5 fill shapes, plus three filled slots, use before definition, nested use inside a fill); context value kinds 0..%d symbolic; strings |s| <= 1 over {< & \" a}; repeat of 0..%d items" % (nm, K, 1 if tier == "quick" else 2),
                           functions=["simpletal.simpleTAL.TemplateInterpreter.cmdUseMacro/cmdDefineSlot", "simpletal.simpleTAL.TemplateCompiler (METAL compile)", "simpletal.simpleTALES.Context.evaluate"]))
     obs.append(Ob(id="C17.3-repeat-variables", body="harness.C17:body_repeatvar", sig="i: int, n: int", pre=["0 <= i < n", "n <= 14"], timeout=120,
                   desc="repeat variables index/number/even/odd/start/end/length equal their definitions", bounds="positions 0 <= i < n <= 14 (symbolic; len() realizes the length)", functions=["simpletal.simpleTALES.RepeatVariable"]))
